@@ -629,6 +629,11 @@ def gen_case(rng, ens, tier, max_trials=None):
                     tr["presel"].append([r, "D", lab])
                 else:
                     tr["presel"].append([r, "A"] if rng.random() < 0.5 else [r, "X", lab])
+        if rng.random() < 0.1 and e["tree"][0] == "D":
+            # a target pre-selected on a member of a composite displacement move (the composite draws its own)
+            r = rng.choice(tree_refs(e["tree"]))
+            if objs[r]["labels"]:
+                tr["presel"].append([r, "D", rng.choice(objs[r]["labels"])])
         trials.append(tr)
     case["trials"] = trials
     return case
